@@ -54,6 +54,7 @@ META = {
 }
 
 addonctx.quiet_logging()
+addonctx.memoize_filter_parse()
 
 # flow pool: name -> (kind, url path)
 POOL = {"ha": ("http", "/a"), "hb": ("http", "/b"), "ws": ("ws", "/ws"), "tcp": ("tcp", None), "udp": ("udp", None),
